@@ -259,6 +259,7 @@ def body_rewrites(src, lo, hi, edits, subst, stats, opts):
                 # don't match in the middle of a path (preceded by `::`) unless pattern starts with ::
                 edits.add(t.start, toks[i + n - 1].end, rep, "SUBST", " ".join(pat) + " => " + rep)
                 stats["SUBST"] = stats.get("SUBST", 0) + 1
+                stats.setdefault("__subst_used", set()).add(tuple(pat))
                 i += n
                 done = True
                 break
@@ -460,6 +461,15 @@ def rewrite_for_loops(src, lo, hi, edits, stats):
         edits.add(toks[bo].start, toks[bo].start, "{ match " + name + ".next() { Some(" + pat + ") => ", "R4", "")
         edits.add(toks[bc].end, toks[bc].end, " None => break, } } }", "R4", "")
         stats["R4"] = stats.get("R4", 0) + 1
+
+
+def check_subst_used(d, subst, stats, what):
+    """every substitution a directive asks for must apply at least once: a substitution that no longer matches means the
+    source has changed under the contract (the generated text would silently keep the unsubstituted form) -> lost anchor"""
+    used = stats.pop("__subst_used", set())
+    for (pat, rep) in subst:
+        if tuple(pat) not in used:
+            raise LostAnchor(f"{d.get('file')}::{what}: substitution `{' '.join(pat)}` did not match anything")
 
 
 def parse_block(body):
@@ -676,6 +686,7 @@ def gen_fn(repo, d, body, report):
                 raise LostAnchor(f"{d['file']}::{d['name']}: loop ordinal {k} not found ({len(loops)} loops)")
             lc = toks[loops[k]["body_close"]]
             edits.add(lc.end, lc.end, "\n" + "\n".join(sub["text"]).rstrip() + "\n", "GHOST", f"after loop {k}")
+    check_subst_used(d, subst, stats, d["name"])
     lo_off, hi_off = toks[f["start"]].start, toks[f["body_close"]].end
     if d.get("attr"):
         edits.add(lo_off, lo_off, d["attr"] + "\n", "SPEC", "verifier attribute")
@@ -793,6 +804,7 @@ def gen_type(repo, d, body, report):
             k += 1
     subst = parse_subst(d.get("subst", ""))
     body_rewrites(src, ty["kw"] + 2, hi, edits, subst, stats, {})
+    check_subst_used(d, subst, stats, d["name"])
     lo_off, hi_off = toks[lo].start, toks[hi].end
     text, segs = edits.apply(src.text, lo_off, hi_off)
     # drop doc comments
@@ -830,6 +842,7 @@ def gen_const(repo, d, body, report):
         cl = match_close(toks, s + 1)
         edits.add(toks[s + 1].start, toks[cl].end, "", "R5", "visibility")
     body_rewrites(src, c["kw"] + 2, c["end"], edits, parse_subst(d.get("subst", "")), stats, {})
+    check_subst_used(d, parse_subst(d.get("subst", "")), stats, d["name"])
     text, segs = edits.apply(src.text, toks[s].start, toks[c["end"]].end)
     report["items"].append(dict(kind="const", file=d["file"], name=d["name"], src_line=src.line_of(toks[s].start)))
     return text, segs, src
@@ -857,6 +870,7 @@ def gen_fragment(repo, d, body, report):
     edits = Edits()
     stats = {}
     body_rewrites(src, a0, b1 + 1, edits, parse_subst(d.get("subst", "")), stats, {})
+    check_subst_used(d, parse_subst(d.get("subst", "")), stats, d["name"])
     rewrite_loop_values(src, a0, b1 + 1, edits, stats, {k: v for k, v in d.items() if k.startswith("__brk")})
     loops = src.loops_in(a0, b1 + 1)
     if "loops" in d and len([L for L in loops if not any(M["body_open"] < L["body_open"] and L["body_close"] < M["body_close"] for M in loops)]) != int(d["loops"]):
